@@ -175,6 +175,8 @@ def jobs(tier):
         J(L=9, kind='p2p', shape='twoway', L2=15, kind2='p2p', windows=(3, 1))
         J(L=15, kind='p2p', shape='fanout', L2=9, kind2='pdu2', windows=(2, 2))
         J(L=9, kind='p2p', shape='twoway', L2=9, kind2='p2p', reent='all', windows=(1, 1))
+        out.append(Job('C01', 'c02:h_staggered', {'dll': 'j1939-21', 'L1': 20, 'L2': 12, 'windows': [1, 1]}, W=40, wall=120, validate=1))
+        out.append(Job('C01', 'c02:h_staggered', {'dll': 'j1939-21', 'L1': 30, 'L2': 9, 'windows': [2, 3]}, W=40, wall=120, validate=1))
     else:
         for L in range(0, 121):
             for kind in ('p2p', 'bam255', 'pdu2'):
